@@ -75,6 +75,15 @@ def run(chk):
         raw.append({"files": {"foo/v1/focus.j5s": mutate(t, rng)}, "focus": "foo/v1/focus.j5s", "cls": "mutation"})
     for t in random_texts(rng, 500 if quick else 10000):
         raw.append({"files": {"foo/v1/focus.j5s": rng.choice(["", "package foo.v1\n\n"]) + t}, "focus": "foo/v1/focus.j5s", "cls": "random"})
+    # bundles: several files of one package that refer to each other (found by the J5Schema simulation of C02)
+    A = "package foo.v1\n\nobject Apple {\n\tfield b object:Banana\n}\n"
+    B = "package foo.v1\n\nobject Banana {\n\tfield a object:Apple\n}\n"
+    C = "package foo.v1\n\nobject Cherry {\n\tfield a object:Apple\n\tfield c array:object:Cherry\n}\n"
+    raw.append({"files": {"foo/v1/focus.j5s": A, "foo/v1/b.j5s": B}, "focus": "foo/v1/focus.j5s", "cls": "bundle-mutual-files"})
+    raw.append({"files": {"foo/v1/focus.j5s": C, "foo/v1/a.j5s": A.replace("object:Banana", "object:Cherry")}, "focus": "foo/v1/focus.j5s",
+                "cls": "bundle-mutual-files"})
+    raw.append({"files": {"foo/v1/focus.j5s": C, "foo/v1/a.j5s": A.replace("\tfield b object:Banana\n", "\tfield n string\n")},
+                "focus": "foo/v1/focus.j5s", "cls": "bundle-one-way"})
     res2 = chk.replay("lang-compile", raw, "raw", workers=W, timeout="30s")
     chk.absorb("lang-compile", raw, res2)
     # direction T
